@@ -21,6 +21,7 @@ import (
 //	result.X = make([]string,0,…); append a…; append b…     concat
 //	if a.X != nil || b.X != nil { result.X = make(map…); maps.Copy(result.X, a.X); maps.Copy(result.X, b.X) }   tagsFresh
 //	if b.X != nil { if result.X == nil { result.X = make(map…) }; maps.Copy(result.X, b.X) }                     tagsInPlace (the pre-repair shape: writes through a's map)
+//	result.X = append(a.X, b.X...)                                                                               appendInPlace (grows a's slice in place when it has spare capacity)
 //	(no statement)                             none   — result keeps a's value (var result = *a)
 //
 // Any other statement, a second statement about the same field, or a statement
@@ -314,6 +315,14 @@ func genMergeConfig(repo string) (string, error) {
 			}
 			if isSel(rhs, "b", fld) {
 				if err := t.set(fld, "always", pos); err != nil {
+					return "", err
+				}
+				continue
+			}
+			// result.X = append(a.X, b.X...)
+			if c, ok := rhs.(*ast.CallExpr); ok && isIdent(c.Fun, "append") && len(c.Args) == 2 && c.Ellipsis != token.NoPos &&
+				isSel(c.Args[0], "a", fld) && isSel(c.Args[1], "b", fld) {
+				if err := t.set(fld, "appendInPlace", pos); err != nil {
 					return "", err
 				}
 				continue
